@@ -383,6 +383,44 @@ def rule_line_pushes_guarded(ctx, rid):
     ctx.floor(rid, "appends to WrappedBlock.line", n, 8)
 
 
+def rule_room_counter(ctx, rid):
+    """The hard-wrap loop guards its pushes with a counter of the room left on the current line.  Every definition of that
+    counter is `self.width - self.line.len` (what is already on the line counts), `self.width` immediately after the line
+    was flushed, or a decrement of itself."""
+    import re
+    F = ctx.facts
+    n = 0
+    for b in F.bodies.values():
+        if not b.id.startswith("render::text_renderer::WrappedBlock::<T>::") or b.kind == "Closure":
+            continue
+        env = {}
+        for l, loc in enumerate(b.locals):
+            if loc["ty"] != "usize":
+                continue
+            ds = [r for r in b.defs()[l] if r[1] in b.reachable()]
+            if len(ds) < 2 or any(r[0] == "arg" for r in ds):
+                continue
+            k = b.canon(l, env=env)
+            forms = [(r, norm(b.canon(r[3]["rv"]["use"], env=env)) if r[0] == "stmt" and "use" in r[3]["rv"] else "?") for r in ds]
+            if not any(f in ("self.width", "(self.width - self.line.len)") or re.fullmatch(r"\(self\.width - .*\)", f) for _r, f in forms):
+                continue  # not a room counter
+            n += 1
+            flush_targets = {t.get("target") for _bb, t in b.calls(lambda cd, t: callee_method(t) in ("flush_line", "force_flush_line"))}
+            for r, f in forms:
+                if f == "(self.width - self.line.len)":
+                    okc, why = True, ""
+                elif f == "self.width":
+                    okc = r[1] in flush_targets
+                    why = "the counter is set to the full width although the line was not flushed just before: what is already on the line is not subtracted"
+                elif f.startswith("(%s - " % k):
+                    okc, why = True, ""
+                else:
+                    okc, why = False, "unrecognised definition of the room counter"
+                ctx.check(okc, rid, "%s:room-counter:%s" % (fn_key(b), f.replace(k, "K")[:50]), b.term(r[1])["span"] if r[0] != "stmt" else r[3]["span"], b.id,
+                          "%s (defined as %s)" % (why, f[:120]))
+    ctx.floor(rid, "room counters in WrappedBlock", n, 1)
+
+
 def rule_stacked_cells_full_width(ctx, rid):
     """C02-F: on the stacked path a cell's width is the column size unchanged."""
     F = ctx.facts
